@@ -70,6 +70,8 @@ class PlanLog:
         self.return_value = None
         self.msg_ids = {}  # id(msg) -> index of first yield
         self.raised = None  # exception that left the top-level plan
+        self.inner = []  # every yield of a ["msg", ...] node as the plan's own code saw it (inside all wrappers):
+        #                  {"msg", "resp" | "thrown", "deleted": the enclosing wrappers remove this message}
 
     def ev(self, t, **kw):
         kw["t"] = t
@@ -131,6 +133,7 @@ class Interp:
         self.plog = plog
         self.exc = _exc_classes()
         self.extra = extra or {}  # named python objects (callbacks, suspenders) usable as {"$obj": name}
+        self.ctx = []  # names of the message-deleting wrappers enclosing the node being interpreted
 
     # ---- value resolution
     def res(self, v):
@@ -161,7 +164,18 @@ class Interp:
             a = [self.res(x) for x in (args or [])]
             kw = {k: self.res(x) for k, x in (kwargs or {}).items()}
             msg = Msg(cmd, o, *a, run=opts.get("run"), **kw)
-            resp = yield msg
+            rec = {
+                "msg": msg,
+                "deleted": ("stub" in self.ctx and cmd in ("open_run", "close_run", "stage", "unstage"))
+                or ("drop_null" in self.ctx and cmd == "null" and a[:1] == ["dropme"]),
+            }
+            self.plog.inner.append(rec)
+            try:
+                resp = yield msg
+            except BaseException as e:  # noqa: BLE001
+                rec["thrown"] = e
+                raise
+            rec["resp"] = resp
             if "save" in opts:
                 self.plog.saved[opts["save"]] = resp
             return resp
@@ -292,6 +306,37 @@ class Interp:
             g = bpp.rewindable_wrapper(b, p["rewindable"])
         elif name == "set_run_key":
             g = bpp.set_run_key_wrapper(b, p["run"])
+        elif name in ("stub", "drop_null"):
+            # message-deleting preprocessors: the deleted yields must be resumed with None
+            inner = self.ctx
+            self.ctx = inner + [name]
+            body_gen = b  # created above; its code runs lazily, so the context is switched around every step
+
+            def ctxgen(gen=body_gen, mine=self.ctx, interp=self):
+                resp, exc = None, None
+                while True:
+                    saved = interp.ctx
+                    interp.ctx = mine
+                    try:
+                        msg = gen.throw(exc) if exc is not None else gen.send(resp)
+                    except StopIteration as s_:
+                        return s_.value
+                    finally:
+                        interp.ctx = saved
+                    exc = None
+                    try:
+                        resp = yield msg
+                    except GeneratorExit:
+                        gen.close()
+                        raise
+                    except BaseException as e:  # noqa: BLE001
+                        exc, resp = e, None
+
+            self.ctx = inner
+            if name == "stub":
+                g = bpp.stub_wrapper(ctxgen())
+            else:
+                g = bpp.msg_mutator(ctxgen(), lambda m: None if (m.command == "null" and m.args[:1] == ("dropme",)) else m)
         elif name == "suspend":
             g = bpp.suspend_wrapper(b, p["suspenders"])
         elif name == "supplemental":
